@@ -48,7 +48,7 @@ def gen_case(rng):
             open_.append(eid)
         elif r < 0.80 and open_:
             e = open_.pop(rng.randrange(len(open_)))
-            ops.append("exit e=%d" % e)
+            ops.append("exit e=%d%s" % (e, " err=1" if rng.random() < 0.25 else ""))   # a traced error must not change admission/accounting
         elif r < 0.90:
             ops.append("ctrl res=r")
         else:
